@@ -1,6 +1,6 @@
 (* C13 - property theorems only.  Each is closed by [exact] of a lemma of the
    Proofs files and followed by Print Assumptions. *)
-From VF.C13 Require Import Model Proofs Proofs2 Proofs3 Proofs5 Proofs6 Proofs7 Proofs8 Proofs9 Proofs10 Proofs11 Proofs12.
+From VF.C13 Require Import Model Proofs Proofs2 Proofs3 Proofs5 Proofs6 Proofs7 Proofs8 Proofs9 Proofs10 Proofs11 Proofs12 Proofs13 Proofs14.
 From VF.C13 Require Import Proofs4.
 From Coq Require Import Sorted.
 From VF.Lib Require Import Keccak.
@@ -213,6 +213,55 @@ Theorem C13_lazy_reopen :
 Proof. exact lazy_reopen. Qed.
 Print Assumptions C13_lazy_reopen.
 
+(* Trie.Commit feeds the cache what C13_gc_safe assumes.  [commit_seq H lt dirty]
+   is the sequence of Database.insert calls Trie.Commit issues for the (lazily
+   loaded) trie lt: children before parents, unloaded hash nodes skipped, the
+   root last, nothing if no node was rebuilt.  If lt stands for the canonical
+   trie t, the children function agrees with the content of t's nodes, and the
+   unloaded parts of lt are cached or on disk, then every insert of the
+   sequence meets the side conditions of the schedule alphabet (hash not
+   empty, children = what the blob names, all of them cached or on disk at
+   that moment - the reference counts are raised by db_insert itself), so the
+   state stays within the reachable states of C13_gc_safe, nothing becomes
+   unavailable, and the new root is cached afterwards.  That the real
+   Trie.Commit issues exactly this sequence is checked on every database
+   schedule of the harness (GBuild: the model's sequence against the nodes the
+   real calls appended to the flush-list, in order, and the parent counts). *)
+Theorem C13_commit_inserts_ok :
+  forall (H : bytes -> bytes), (forall x, length (H x) = 32%nat) ->
+  forall (kidsof : bytes -> list bytes) (rank : bytes -> nat) (db : list (bytes * bytes)),
+  forall t lt dirty, lz H db lt t -> canon t -> small t -> agrees H kidsof t ->
+  (match lt with HashN _ => False | _ => True end) ->
+  forall s, full_reach kidsof rank s -> (forall h, In h (gather lt) -> avail s h) ->
+  let s' := fold_left db_insert (commit_seq H lt dirty) s in
+  full_reach kidsof rank s' /\ (forall x, avail s x -> avail s' x) /\ (dirty = true -> avail s' (root_hash H t)).
+Proof. exact commit_seq_ok. Qed.
+Print Assumptions C13_commit_inserts_ok.
+
+(* The width of the counters.  The Go code keeps the parent and children counts
+   in uint16; [run16] is the schedule semantics with these counters reduced mod
+   2^16 after every step that increments, [runN] the exact one.  GUARD: for a
+   schedule with fewer than 65536 reference events (children named by inserted
+   blobs + Reference calls) the two coincide step for step and no counter
+   exceeds the number of events - so C13_gc_safe speaks about the code as
+   written.  (Any schedule of the six operations, no side conditions.) *)
+Theorem C13_uint16_guard :
+  forall ops, events ops < 65536 -> run16 ops = runN ops /\ maxctr (runN ops) <= events ops.
+Proof. exact uint16_guard. Qed.
+Print Assumptions C13_uint16_guard.
+
+(* REFUTED beyond the guard: insert one node without children (hash r), reference
+   it 65536 times from the meta root, dereference once.  With uint16 counters the
+   node is then neither cached nor on disk although 65535 references remain; with
+   exact counters it is cached.  The real code behaves like run16 (replayed
+   against /repo, see fixes/C13_parents_uint16_wrap.md). *)
+Theorem C13_gc_uint16_refuted :
+  forall r blob, r <> [] -> blob_kids blob = [] ->
+  ~ avail (run16 (wrap_schedule r blob)) r /\
+  ext_get (db_meta (runN (wrap_schedule r blob))) r = 65535 /\ avail (runN (wrap_schedule r blob)) r.
+Proof. exact uint16_wrap_loses_node. Qed.
+Print Assumptions C13_gc_uint16_refuted.
+
 (* ---- non-vacuity ---------------------------------------------------------- *)
 
 Definition ex_ops1 : list kvop :=
@@ -277,10 +326,19 @@ Print Assumptions C13_nonvacuous_proofs.
    collected, the shared ones stay *)
 Definition ex_t1 : node := run [KUpdate [17] (repeat 65 40); KUpdate [34] (repeat 66 40)].
 Definition ex_t2 : node := t_update ex_t1 [34] (repeat 68 40).
+(* evaluated once; [ex_consts] ties them to their definitions *)
+Definition ex_c1 : list (bytes * bytes) := Eval vm_compute in commit keccak256 ex_t1.
+Definition ex_c2 : list (bytes * bytes) := Eval vm_compute in commit keccak256 ex_t2.
+Definition ex_r1 : bytes := Eval vm_compute in root_hash keccak256 ex_t1.
+Definition ex_r2 : bytes := Eval vm_compute in root_hash keccak256 ex_t2.
+Lemma ex_consts : ex_c1 = commit keccak256 ex_t1 /\ ex_c2 = commit keccak256 ex_t2 /\
+                  ex_r1 = root_hash keccak256 ex_t1 /\ ex_r2 = root_hash keccak256 ex_t2.
+Proof. vm_compute. repeat split; reflexivity. Qed.
+
 Definition ex_fops : list fop :=
-  map (fun p => FInsert (fst p) (snd p)) (commit keccak256 ex_t1) ++ [FRef (root_hash keccak256 ex_t1)] ++
-  map (fun p => FInsert (fst p) (snd p)) (commit keccak256 ex_t2) ++ [FRef (root_hash keccak256 ex_t2)] ++
-  [FDeref (root_hash keccak256 ex_t1)].
+  map (fun p => FInsert (fst p) (snd p)) ex_c1 ++ [FRef ex_r1] ++
+  map (fun p => FInsert (fst p) (snd p)) ex_c2 ++ [FRef ex_r2] ++
+  [FDeref ex_r1].
 
 Definition ex_state : dbstate :=
   Eval vm_compute in (match frag_run ex_fops db_empty with Some s => s | None => db_empty end).
@@ -290,10 +348,10 @@ Proof. vm_compute. reflexivity. Qed.
 
 Example C13_nonvacuous_gc :
   frag_reach ex_state /\
-  (ext_get (db_meta ex_state) (root_hash keccak256 ex_t2) = 1 /\ ext_get (db_meta ex_state) (root_hash keccak256 ex_t1) = 0 /\
-   length (commit keccak256 ex_t1) = 3%nat /\ length (db_nodes ex_state) = 3%nat /\
-   forallb (fun p => existsb (list_eqb (fst p)) (hashes (db_nodes ex_state))) (commit keccak256 ex_t2) = true /\
-   existsb (list_eqb (root_hash keccak256 ex_t1)) (hashes (db_nodes ex_state)) = false).
+  (ext_get (db_meta ex_state) ex_r2 = 1 /\ ext_get (db_meta ex_state) ex_r1 = 0 /\
+   length ex_c1 = 3%nat /\ length (db_nodes ex_state) = 3%nat /\
+   forallb (fun p => existsb (list_eqb (fst p)) (hashes (db_nodes ex_state))) ex_c2 = true /\
+   existsb (list_eqb ex_r1) (hashes (db_nodes ex_state)) = false).
 Proof.
   split; [exact (frag_run_sound _ _ _ fr_empty ex_run)|]. vm_compute. repeat split; reflexivity.
 Qed.
@@ -302,12 +360,12 @@ Print Assumptions C13_nonvacuous_gc.
 (* the full alphabet is inhabited: two tries sharing a leaf, an explicit
    reference between their roots, Cap, Dereference and Commit; the committed
    root is on disk and all its nodes are still available *)
-Definition ex_tbl : list (bytes * bytes) := commit keccak256 ex_t1 ++ commit keccak256 ex_t2.
+Definition ex_tbl : list (bytes * bytes) := ex_c1 ++ ex_c2.
 Definition ex_xops : list xop :=
-  map (fun p => XInsert (fst p) (snd p)) (commit keccak256 ex_t1) ++ [XRefMeta (root_hash keccak256 ex_t1)] ++
-  map (fun p => XInsert (fst p) (snd p)) (commit keccak256 ex_t2) ++ [XRefMeta (root_hash keccak256 ex_t2)] ++
-  [XRefNode (root_hash keccak256 ex_t1) (root_hash keccak256 ex_t2); XCap 150;
-   XDeref (root_hash keccak256 ex_t1); XCommit (root_hash keccak256 ex_t2); XCap 0].
+  map (fun p => XInsert (fst p) (snd p)) ex_c1 ++ [XRefMeta ex_r1] ++
+  map (fun p => XInsert (fst p) (snd p)) ex_c2 ++ [XRefMeta ex_r2] ++
+  [XRefNode ex_r1 ex_r2; XCap 150;
+   XDeref ex_r1; XCommit ex_r2; XCap 0].
 Definition ex_state2 : dbstate :=
   Eval vm_compute in (match full_run ex_tbl ex_xops db_empty with Some s => s | None => db_empty end).
 
@@ -317,9 +375,9 @@ Proof. vm_compute. split; reflexivity. Qed.
 Example C13_nonvacuous_gc_full :
   (forall h k, In k (kidsof_tbl ex_tbl h) -> (rank_tbl ex_tbl k < rank_tbl ex_tbl h)%nat) /\
   full_reach (kidsof_tbl ex_tbl) (rank_tbl ex_tbl) ex_state2 /\
-  (existsb (list_eqb (root_hash keccak256 ex_t2)) (db_disk ex_state2) = true /\
-   ext_get (db_meta ex_state2) (root_hash keccak256 ex_t2) = 1 /\
-   forallb (fun p => availb ex_state2 (fst p)) (commit keccak256 ex_t2) = true /\
+  (existsb (list_eqb ex_r2) (db_disk ex_state2) = true /\
+   ext_get (db_meta ex_state2) ex_r2 = 1 /\
+   forallb (fun p => availb ex_state2 (fst p)) ex_c2 = true /\
    length (db_disk ex_state2) = 5%nat).
 Proof.
   split; [exact (tbl_ok_rank ex_tbl (proj1 ex_run2))|].
@@ -333,6 +391,8 @@ Print Assumptions C13_nonvacuous_gc_full.
    insert give the same root as on the loaded trie *)
 Definition ex_t3 : node :=
   run [KUpdate [17;17;17] (repeat 65 40); KUpdate [17;17;34] (repeat 66 40); KUpdate [17;51;51] (repeat 67 40); KUpdate [34] (repeat 68 40)].
+Definition ex_c3 : list (bytes * bytes) := Eval vm_compute in commit keccak256 ex_t3.
+Definition ex_r3 : bytes := Eval vm_compute in root_hash keccak256 ex_t3.
 Definition ex_lops : list kvop := [KDelete [34]; KDelete [17;51;51]; KUpdate [85] [1;2;3]].
 Fixpoint has_hashn (n : node) : bool :=
   match n with
@@ -343,11 +403,11 @@ Fixpoint has_hashn (n : node) : bool :=
   end.
 
 Example C13_nonvacuous_lazy :
-  canonb ex_t3 = true /\
-  match l_open (commit keccak256 ex_t3) (root_hash keccak256 ex_t3) with
+  canonb ex_t3 = true /\ ex_c3 = commit keccak256 ex_t3 /\ ex_r3 = root_hash keccak256 ex_t3 /\
+  match l_open ex_c3 ex_r3 with
   | Some lt0 =>
     has_hashn lt0 = true /\
-    match l_run 40 (commit keccak256 ex_t3) ex_lops lt0 with
+    match l_run 40 ex_c3 ex_lops lt0 with
     | Some lt' => has_hashn lt' = true /\
                   root_hash keccak256 lt' = root_hash keccak256 (fold_left apply_op ex_lops ex_t3)
     | None => False
@@ -356,3 +416,15 @@ Example C13_nonvacuous_lazy :
   end.
 Proof. vm_compute. repeat split; reflexivity. Qed.
 Print Assumptions C13_nonvacuous_lazy.
+
+(* the refutation applies to a real node: the root of a one-key trie is a leaf
+   without children; and Trie.Commit's sequence for the example tries is what the
+   schedule example above inserted *)
+Definition ex_leaf : node := run [KUpdate [17] (repeat 65 40)].
+Example C13_nonvacuous_uint16 :
+  root_hash keccak256 ex_leaf <> [] /\ blob_kids (encode (collapse keccak256 ex_leaf)) = [] /\
+  commit_seq keccak256 ex_leaf true = [(root_hash keccak256 ex_leaf, encode (collapse keccak256 ex_leaf))] /\
+  events (XInsert (root_hash keccak256 ex_leaf) (encode (collapse keccak256 ex_leaf)) :: [XRefMeta (root_hash keccak256 ex_leaf)]) = 1 /\
+  commit_seq keccak256 ex_t2 true = ex_c2.
+Proof. vm_compute. repeat split; try reflexivity. discriminate. Qed.
+Print Assumptions C13_nonvacuous_uint16.
